@@ -160,6 +160,10 @@ type lockRule struct {
 	Alt map[string][2]string
 	// Exempt: function (top-level name) -> reason why no lock is needed there.
 	Exempt map[string]string
+	// ExemptIf: access-level exemption (e.g. initialisation before the object
+	// is shared with another goroutine), with its reason.
+	ExemptIf     func(a FieldAccess) bool
+	ExemptReason string
 }
 
 // ruleLocked (R-LOCKED): every load/store of the field happens with the
@@ -194,6 +198,9 @@ func ruleLocked(p *Prog, r *Report, li *LockInfo, lr lockRule) int {
 			top = top.Parent()
 		}
 		tn := funcName(top)
+		if lr.ExemptIf != nil && lr.ExemptIf(a) {
+			continue
+		}
 		if alt, ok := lr.Alt[tn]; ok {
 			used[tn] = true
 			if held[alt[0]] {
